@@ -63,13 +63,13 @@ SPEC = {
         'root partition number >= 0',
         'FatPath.rglob yields a directory before its content (checked on a sample tree on every run); the removal-order '
         'fact relies on it',
-        'generator keeps away from defects of nobodd/fs.py / path.py owned by C04/C10 (mkdir does not zero the new '
-        'cluster: files removed/overwritten before a directory is created get zero content); C17_NO_AVOID=1 disables',
         'FAT names compare case-insensitively (trees are compared on case-folded paths)',
     ],
 }
 
-AVOID_FS_DEFECTS = os.environ.get('C17_NO_AVOID', '') == ''
+# the mkdir defect was repaired in /repo (fix: mkdir zeroes the cluster of the new directory);
+# the avoidance is off unless explicitly requested
+AVOID_FS_DEFECTS = os.environ.get('C17_AVOID', '') != ''
 
 
 # ====================================================================== helpers
